@@ -114,6 +114,11 @@ fn is_constant(expr: &Expr) -> bool {
         Expr::Object(ObjectLit { props, .. }) => props.iter().all(|prop| {
             if let PropOrSpread::Prop(prop) = prop {
                 match &**prop {
+                    // a computed key is part of what the object evaluates to
+                    Prop::KeyValue(KeyValueProp {
+                        key: PropName::Computed(ComputedPropName { expr, .. }),
+                        value,
+                    }) => is_constant(expr) && is_constant(value),
                     Prop::KeyValue(KeyValueProp { value, .. }) => is_constant(value),
                     Prop::Shorthand(ident) => &ident.sym == "undefined",
                     _ => false,
